@@ -328,4 +328,400 @@ theorem good_readCore {s : St} (h : Good s) :
       simpa [countNl_append, Nat.add_assoc] using this
 
 
+
+
+/-- static part of a stream. -/
+def SameStream (a b : St) : Prop :=
+  a.content = b.content ∧ a.ty = b.ty ∧ a.output = b.output ∧ a.eofAction = b.eofAction ∧ a.reposition = b.reposition
+
+theorem same_textCore (c : Bool) (s : St) : SameStream (textCore c s).1 s := by
+  unfold textCore
+  split
+  · cases c <;> exact ⟨rfl, rfl, rfl, rfl, rfl⟩
+  · split
+    · cases c <;> exact ⟨rfl, rfl, rfl, rfl, rfl⟩
+    · exact ⟨rfl, rfl, rfl, rfl, rfl⟩
+
+theorem same_textOp (c : Bool) (s : St) : SameStream (textOp c s).1 s := by
+  unfold textOp
+  split
+  · exact ⟨rfl, rfl, rfl, rfl, rfl⟩
+  · split
+    · split
+      · exact ⟨rfl, rfl, rfl, rfl, rfl⟩
+      · exact ⟨rfl, rfl, rfl, rfl, rfl⟩
+      · exact same_textCore c (resetSt s)
+    · exact same_textCore c s
+
+theorem byteOp_text (c : Bool) {s : St} (ht : s.ty = .text) : (byteOp c s).1 = s := by
+  unfold byteOp check
+  simp only [if_true]
+  cases ho : s.output
+  · simp [ht]
+  · simp
+
+theorem putOp_input (t : Ty) (bs : List Nat) {s : St} (ho : s.output = false) : (putOp t bs s).1 = s := by
+  unfold putOp check
+  simp [ho]
+
+theorem same_getNChars (n : Nat) (s : St) : SameStream (getNChars n s).1 s := by
+  unfold getNChars
+  split
+  · exact ⟨rfl, rfl, rfl, rfl, rfl⟩
+  · split <;> exact ⟨rfl, rfl, rfl, rfl, rfl⟩
+
+theorem same_readOp (s : St) : SameStream (readOp s).1 s := by
+  have hcore : ∀ t : St, SameStream (readCore t).1 t := by
+    intro t
+    unfold readCore
+    simp only
+    split
+    · split <;> exact ⟨rfl, rfl, rfl, rfl, rfl⟩
+    · split <;> exact ⟨rfl, rfl, rfl, rfl, rfl⟩
+  unfold readOp
+  split
+  · exact ⟨rfl, rfl, rfl, rfl, rfl⟩
+  · split
+    · split
+      · exact ⟨rfl, rfl, rfl, rfl, rfl⟩
+      · exact ⟨rfl, rfl, rfl, rfl, rfl⟩
+      · exact hcore (resetSt s)
+    · exact hcore s
+
+theorem good_readOp {s : St} (h : Good s) : Good (readOp s).1 := by
+  unfold readOp
+  split
+  · exact h
+  · split
+    · split
+      · exact h
+      · exact h
+      · exact (good_readCore (good_reset s)).1
+    · exact (good_readCore h).1
+
+def noReposition : Op → Bool
+  | .setPosition _ => false
+  | _ => true
+
+/-- every builtin other than `set_stream_position` keeps an input text stream `Good`. -/
+theorem good_step {s : St} (h : Good s) (ho : s.output = false) (ht : s.ty = .text) (op : Op)
+    (hop : noReposition op = true) : Good (step s op).1 ∧ SameStream (step s op).1 s := by
+  cases op with
+  | getChar => exact ⟨(good_textOp true h).1, same_textOp true s⟩
+  | getCode => exact ⟨(good_textOp true h).1, same_textOp true s⟩
+  | peekChar => exact ⟨(good_textOp false h).1, same_textOp false s⟩
+  | peekCode => exact ⟨(good_textOp false h).1, same_textOp false s⟩
+  | getByte => have e : (step s Op.getByte).1 = s := byteOp_text true ht; rw [e]; exact ⟨h, rfl, rfl, rfl, rfl, rfl⟩
+  | peekByte => have e : (step s Op.peekByte).1 = s := byteOp_text false ht; rw [e]; exact ⟨h, rfl, rfl, rfl, rfl, rfl⟩
+  | getNChars n => exact ⟨(good_getNChars n h ht).1, same_getNChars n s⟩
+  | atEnd => exact ⟨h, rfl, rfl, rfl, rfl, rfl⟩
+  | endOfStream => exact ⟨h, rfl, rfl, rfl, rfl, rfl⟩
+  | position => exact ⟨h, rfl, rfl, rfl, rfl, rfl⟩
+  | setPosition p => simp [noReposition] at hop
+  | readTerm => exact ⟨good_readOp h, same_readOp s⟩
+  | putChar cp => have e : (step s (Op.putChar cp)).1 = s := putOp_input _ _ ho; rw [e]; exact ⟨h, rfl, rfl, rfl, rfl, rfl⟩
+  | putByte b => have e : (step s (Op.putByte b)).1 = s := putOp_input _ _ ho; rw [e]; exact ⟨h, rfl, rfl, rfl, rfl, rfl⟩
+  | putChars cps => have e : (step s (Op.putChars cps)).1 = s := putOp_input _ _ ho; rw [e]; exact ⟨h, rfl, rfl, rfl, rfl, rfl⟩
+
+theorem good_run : ∀ (ops : List Op) (s : St), Good s → s.output = false → s.ty = .text →
+    (∀ op ∈ ops, noReposition op = true) → Good (run s ops).2 ∧ SameStream (run s ops).2 s
+  | [], s, h, _, _, _ => ⟨h, rfl, rfl, rfl, rfl, rfl⟩
+  | op :: ops, s, h, ho, ht, hops => by
+    have h1 := good_step h ho ht op (hops op (List.mem_cons_self))
+    obtain ⟨g1, sc, sty, sout, se, sr⟩ := h1
+    have ih := good_run ops (step s op).1 g1 (by rw [sout]; exact ho) (by rw [sty]; exact ht)
+      (fun o ho' => hops o (List.mem_cons_of_mem _ ho'))
+    show Good (run (step s op).1 ops).2 ∧ SameStream (run (step s op).1 ops).2 s
+    obtain ⟨g2, c2, t2, o2, e2, r2⟩ := ih
+    exact ⟨g2, c2.trans sc, t2.trans sty, o2.trans sout, e2.trans se, r2.trans sr⟩
+
+theorem good_openIn (content : List Nat) (ty : Ty) (eof : EofAction) (r : Bool) : Good (openIn content ty eof r) := by
+  refine ⟨Nat.zero_le _, ?_⟩
+  show 0 = countNl (content.take 0)
+  simp [countNl]
+
+
+
+/-! ### round trip: characters -/
+
+theorem encode_ne_nil (cp : Nat) : encode cp ≠ [] := by
+  intro h
+  have := encode_length cp
+  rw [h] at this
+  have := (lenUtf8_le cp).1
+  simp at *
+  omega
+
+theorem rest_advance (s : St) (n : Nat) (l : Nat) :
+    rest { s with cur := s.cur + n, lines := l } = (rest s).drop n := by
+  unfold rest
+  simp [List.drop_drop, Nat.add_comm]
+
+/-- reading `cps.length` characters from a text input stream whose unread bytes are the
+    encoding of `cps`. -/
+theorem getChars_encodeAll : ∀ (cps : List Nat) (s : St), (∀ c ∈ cps, isScalar c = true) →
+    check s .text true = none → s.past = false → s.cur ≤ s.content.length → rest s = encodeAll cps →
+    getChars cps.length s = (cps.map (fun c => Res.ok (.char c)),
+      { s with cur := s.content.length, lines := s.lines + countNl cps })
+  | [], s, _, _, hp, hle, hr => by
+    have hl := rest_length s
+    rw [hr] at hl
+    simp [encodeAll] at hl
+    have hcur : s.cur = s.content.length := by omega
+    simp only [List.length_nil, getChars, List.map_nil, countNl, Nat.add_zero]
+    rw [← hcur]
+  | c :: r, s, hs, hc, hp, hle, hr => by
+    have hsc : isScalar c = true := hs c (List.mem_cons_self)
+    have hd : decodeFirst (rest s) = .ok c (lenUtf8 c) := by
+      rw [hr]; exact decodeFirst_encode hsc _
+    have hne : s.cur ≠ s.content.length := by
+      intro he
+      have hl := rest_length s
+      rw [hr, he] at hl
+      simp [encodeAll] at hl
+      exact encode_ne_nil c hl.1
+    have hstep : textOp true s = ({ s with cur := s.cur + lenUtf8 c, lines := s.lines + nlCount c }, .ok (.char c)) := by
+      rw [textOp_of_none true hc hp]
+      unfold textCore
+      rw [if_neg hne, hd]
+      rfl
+    have hrest : rest { s with cur := s.cur + lenUtf8 c, lines := s.lines + nlCount c } = encodeAll r := by
+      rw [rest_advance, hr]
+      show (encode c ++ encodeAll r).drop (lenUtf8 c) = encodeAll r
+      rw [← encode_length c, List.drop_left]
+    have hlen : s.cur + lenUtf8 c ≤ s.content.length := by
+      have hl := rest_length s
+      rw [hr] at hl
+      simp only [encodeAll, List.length_append, encode_length] at hl
+      omega
+    have ih := getChars_encodeAll r { s with cur := s.cur + lenUtf8 c, lines := s.lines + nlCount c }
+      (fun x hx => hs x (List.mem_cons_of_mem _ hx)) hc hp hlen hrest
+    show getChars (r.length + 1) s = _
+    unfold getChars
+    rw [hstep]
+    simp only
+    rw [ih]
+    simp [countNl, Nat.add_assoc]
+
+
+
+theorem encodeAll_append (a b : List Nat) : encodeAll (a ++ b) = encodeAll a ++ encodeAll b := by
+  induction a with
+  | nil => rfl
+  | cons x r ih => simp [encodeAll, ih, List.append_assoc]
+
+/-- writing characters one by one with `put_char` to a text output stream appends their encodings
+    and never fails. -/
+theorem run_putChars : ∀ (cps : List Nat) (s : St), s.output = true → s.ty = .text →
+    (run s (cps.map Op.putChar)).2 = { s with content := s.content ++ encodeAll cps } ∧
+      (run s (cps.map Op.putChar)).1 = cps.map (fun _ => Res.ok .unit)
+  | [], s, _, _ => by simp [run, encodeAll]
+  | c :: r, s, ho, ht => by
+    have hstep : step s (.putChar c) = ({ s with content := s.content ++ encode c }, .ok .unit) := by
+      show putOp .text (encode c) s = _
+      unfold putOp check
+      simp [ho, ht]
+    have ih := run_putChars r { s with content := s.content ++ encode c } ho ht
+    simp only [List.map_cons, run, hstep]
+    rw [ih.1, ih.2]
+    simp [encodeAll, List.append_assoc]
+
+theorem run_putBytes : ∀ (bs : List Nat) (s : St), s.output = true → s.ty = .binary →
+    (run s (bs.map Op.putByte)).2 = { s with content := s.content ++ bs } ∧
+      (run s (bs.map Op.putByte)).1 = bs.map (fun _ => Res.ok .unit)
+  | [], s, _, _ => by simp [run]
+  | c :: r, s, ho, ht => by
+    have hstep : step s (.putByte c) = ({ s with content := s.content ++ [c] }, .ok .unit) := by
+      show putOp .binary [c] s = _
+      unfold putOp check
+      simp [ho, ht]
+    have ih := run_putBytes r { s with content := s.content ++ [c] } ho ht
+    simp only [List.map_cons, run, hstep]
+    rw [ih.1, ih.2]
+    simp [List.append_assoc]
+
+theorem check_binary_of {s : St} (ho : s.output = false) (ht : s.ty = .binary) : check s .binary true = none := by
+  unfold check; simp [ho, ht]
+
+theorem getBytes_all : ∀ (bs : List Nat) (s : St), check s .binary true = none → s.past = false →
+    rest s = bs →
+    getBytes bs.length s = (bs.map (fun b => Res.ok (.byte b)), { s with cur := s.cur + bs.length })
+  | [], s, _, _, _ => by simp [getBytes]
+  | b :: r, s, hc, hp, hr => by
+    have hstep : byteOp true s = ({ s with cur := s.cur + 1 }, .ok (.byte b)) := by
+      unfold byteOp
+      rw [hc]
+      show (if s.past = true then _ else byteCore true s) = _
+      rw [if_neg (by rw [hp]; exact Bool.false_ne_true)]
+      unfold byteCore
+      rw [hr]
+      rfl
+    have hrest : rest { s with cur := s.cur + 1 } = r := by
+      have : rest { s with cur := s.cur + 1 } = (rest s).drop 1 := by
+        unfold rest; simp [List.drop_drop]
+      rw [this, hr]; rfl
+    have ih := getBytes_all r { s with cur := s.cur + 1 } hc hp hrest
+    show getBytes (r.length + 1) s = _
+    unfold getBytes
+    rw [hstep]
+    simp only
+    rw [ih]
+    simp [Nat.add_assoc, Nat.add_comm 1]
+
+/-! ### Inv -/
+theorem inv_reset (s : St) : Inv (resetSt s) := Or.inl (Nat.zero_le _)
+
+theorem inv_of_good {s : St} (h : Good s) : Inv s := Or.inl h.1
+
+theorem inv_byteCore (c : Bool) {s : St} (h : Inv s) : Inv (byteCore c s).1 := by
+  unfold byteCore
+  split
+  · cases c
+    · exact h
+    · right; rfl
+  · rename_i b tl hr
+    cases c
+    · exact h
+    · rcases h with h | h
+      · left
+        show s.cur + 1 ≤ s.content.length
+        have := rest_length s
+        rw [hr] at this
+        simp at this
+        omega
+      · right; exact h
+
+
+
+/-! ### past the end: the eof_action table -/
+theorem textOp_past {s : St} (c : Bool) (hc : check s .text true = none) (hp : s.past = true) :
+    (s.eofAction = .error → textOp c s = (s, .error .inputPastEnd)) ∧
+    (s.eofAction = .eofCode → textOp c s = (s, .ok .eof)) ∧
+    (s.eofAction = .reset → textOp c s = textCore c (resetSt s)) := by
+  unfold textOp; rw [hc]
+  refine ⟨fun h => ?_, fun h => ?_, fun h => ?_⟩ <;> simp [hp, h]
+
+theorem byteOp_past {s : St} (c : Bool) (hc : check s .binary true = none) (hp : s.past = true) :
+    (s.eofAction = .error → byteOp c s = (s, .error .inputPastEnd)) ∧
+    (s.eofAction = .eofCode → byteOp c s = (s, .ok .eof)) ∧
+    (s.eofAction = .reset → byteOp c s = byteCore c (resetSt s)) := by
+  unfold byteOp; rw [hc]
+  refine ⟨fun h => ?_, fun h => ?_, fun h => ?_⟩ <;> simp [hp, h]
+
+/-! ### the file mechanism -/
+open Scryer.CharReader in
+theorem filePosition_eq {total : Nat} {r : CharReader.St} (h : CharReader.WF r)
+    (ht : (CharReader.pending r).length ≤ total) :
+    filePosition total r = total - (CharReader.pending r).length := by
+  unfold filePosition CharReader.pending
+  have := h.1
+  simp only [List.length_append, List.length_drop]
+  unfold CharReader.pending at ht
+  simp only [List.length_append, List.length_drop] at ht
+  omega
+
+/-! ### get_n_chars = repeated get_char -/
+
+/-- the characters among a list of results. -/
+def charsOf : List Res → List Nat
+  | [] => []
+  | .ok (.char c) :: r => c :: charsOf r
+  | _ :: r => charsOf r
+
+/-- a state in which `get_char` makes no progress (past the end without reset, or invalid bytes
+    ahead): it stays there. -/
+theorem getChars_stuck : ∀ (n : Nat) (s : St) (x : Res), textOp true s = (s, x) → (∀ c, x ≠ .ok (.char c)) →
+    charsOf (getChars n s).1 = [] ∧ (getChars n s).2 = s
+  | 0, s, _, _, _ => ⟨rfl, rfl⟩
+  | n+1, s, x, h, hx => by
+    have ih := getChars_stuck n s x h hx
+    unfold getChars
+    rw [h]
+    simp only
+    refine ⟨?_, ih.2⟩
+    cases x with
+    | ok v =>
+      cases v with
+      | char c => exact absurd rfl (hx c)
+      | _ => exact ih.1
+    | error e => exact ih.1
+    | fail => exact ih.1
+
+theorem getNChars_text {s : St} (n : Nat) (ho : s.output = false) (ht : s.ty = .text) :
+    getNChars n s = ({ s with cur := s.cur + (takeChars n (rest s)).2,
+                              lines := s.lines + countNl (takeChars n (rest s)).1 },
+                     .ok (.chars (takeChars n (rest s)).1)) := by
+  unfold getNChars
+  rw [ho, ht]
+  rfl
+
+theorem takeChars_eq_getChars : ∀ (n : Nat) (s : St), check s .text true = none → s.past = false →
+    s.eofAction ≠ .reset → s.cur ≤ s.content.length →
+    (takeChars n (rest s)).1 = charsOf (getChars n s).1 ∧
+      (getChars n s).2.cur = s.cur + (takeChars n (rest s)).2 ∧
+      (getChars n s).2.lines = s.lines + countNl (takeChars n (rest s)).1
+  | 0, s, _, _, _, _ => by simp [takeChars, getChars, charsOf, countNl]
+  | n+1, s, hc, hp, hr, hle => by
+    rw [show getChars (n+1) s = ((textOp true s).2 :: (getChars n (textOp true s).1).1, (getChars n (textOp true s).1).2) from rfl]
+    rw [textOp_of_none true hc hp]
+    by_cases he : s.cur = s.content.length
+    · -- at the end: get_char returns end_of_file and the stream is past; nothing more is read
+      have hrest : rest s = [] := by unfold rest; rw [he]; simp
+      have htc : textCore true s = ({ s with past := true }, .ok .eof) := by
+        unfold textCore; rw [if_pos he]; rfl
+      have hstuck : textOp true { s with past := true } = ({ s with past := true }, match s.eofAction with
+          | .error => Res.error .inputPastEnd | .eofCode => .ok .eof | .reset => .ok .eof) := by
+        unfold textOp
+        rw [show check { s with past := true } .text true = check s .text true from rfl, hc]
+        simp only [if_true]
+        cases hea : s.eofAction
+        · rfl
+        · rfl
+        · exact absurd hea hr
+      have hx : ∀ c, (match s.eofAction with
+          | .error => Res.error .inputPastEnd | .eofCode => .ok .eof | .reset => .ok .eof) ≠ .ok (.char c) := by
+        intro c; cases s.eofAction <;> simp
+      have st := getChars_stuck n _ _ hstuck hx
+      rw [htc, hrest]
+      simp only [takeChars, decodeFirst, charsOf, st.1, st.2, countNl, Nat.add_zero, and_self]
+    · cases hd : decodeFirst (rest s) with
+      | ok cp k =>
+        have htc : textCore true s = ({ s with cur := s.cur + k, lines := s.lines + nlCount cp }, .ok (.char cp)) := by
+          unfold textCore; rw [if_neg he, hd]; rfl
+        have hok := decodeFirst_ok hd
+        have hlen := hok.2.1
+        rw [rest_length] at hlen
+        have ih := takeChars_eq_getChars n { s with cur := s.cur + k, lines := s.lines + nlCount cp } hc hp hr
+          (by show s.cur + k ≤ s.content.length; omega)
+        rw [rest_advance] at ih
+        rw [htc]
+        simp only [takeChars, hd, charsOf]
+        obtain ⟨i1, i2, i3⟩ := ih
+        refine ⟨by rw [i1], ?_, ?_⟩
+        · rw [i2]; show s.cur + k + _ = _; omega
+        · rw [i3]; show s.lines + nlCount cp + _ = _; simp [countNl, Nat.add_assoc]
+      | invalid k =>
+        have htc : textCore true s = (s, .error .badEncoding) := by
+          unfold textCore; rw [if_neg he, hd]
+        have st := getChars_stuck n s _ (by rw [textOp_of_none true hc hp]; exact htc) (by intro c; simp)
+        rw [htc]
+        simp only [takeChars, hd, charsOf, st.1, st.2, countNl, Nat.add_zero, and_self]
+      | incomplete =>
+        have htc : textCore true s = (s, .error .badEncoding) := by
+          unfold textCore; rw [if_neg he, hd]
+        have st := getChars_stuck n s _ (by rw [textOp_of_none true hc hp]; exact htc) (by intro c; simp)
+        rw [htc]
+        simp only [takeChars, hd, charsOf, st.1, st.2, countNl, Nat.add_zero, and_self]
+
+
+
+theorem getChars_append_one : ∀ (n : Nat) (s : St),
+    getChars (n+1) s = ((getChars n s).1 ++ [(textOp true (getChars n s).2).2], (textOp true (getChars n s).2).1)
+  | 0, s => rfl
+  | n+1, s => by
+    have ih := getChars_append_one n (textOp true s).1
+    show ((textOp true s).2 :: (getChars (n+1) (textOp true s).1).1, (getChars (n+1) (textOp true s).1).2) = _
+    rw [ih]
+    rfl
+
 end Scryer.Stream
